@@ -183,7 +183,7 @@ impl Launcher {
                     None => format!("inject={call}:signal=SIGKILL:when={when}"),
                     Some(e) => format!("inject={call}:error={e}:when={when}"),
                 };
-                c.arg("-f").arg("-qq").arg("-o").arg(&strace_out).arg("-e").arg(format!("trace={call}")).arg("-e").arg(inject).arg(self.bin_dir.join("simnode"));
+                c.arg("--seccomp-bpf").arg("-f").arg("-qq").arg("-o").arg(&strace_out).arg("-e").arg(format!("trace={call}")).arg("-e").arg(inject).arg(self.bin_dir.join("simnode"));
                 c
             }
         };
